@@ -76,10 +76,94 @@ pub fn templates() -> Vec<Template> {
     ]
 }
 
+// ---- deployment shapes across fork rule sets ----------------------------------------------------
+// (seeded change C09c: "installing code always bumps the nonce" is false before EIP-161.)
+// Top-level create transactions and CREATE from a factory, onto fresh addresses and onto addresses
+// that already exist with a balance (nonce 0, no code), with and without an endowment, followed by
+// callers and inspectors of the new code, from Frontier to Cancun.
+
+const F2: u64 = 15; // CREATE factory (nonce-derived addresses)
+
+fn p_top(prefunded: bool) -> Address {
+    // address of the contract created by the first transaction of e1 (prefunded) / e2 (fresh)
+    if prefunded { eoa(1).create(0) } else { eoa(2).create(0) }
+}
+fn p_factory() -> Address {
+    contract(F2).create(1)
+}
+
+pub fn deploy_world() -> MemDb {
+    let mut db = world();
+    db.deploy(contract(F2), kit::factory_create(&kit::vault_init()));
+    // pre-existing, code-less, nonce 0 accounts at the addresses the block will deploy to
+    db.fund(p_top(true), U256::from(77u64), 0);
+    db.fund(p_factory(), U256::from(88u64), 0);
+    db
+}
+
+pub fn deploy_templates() -> Vec<Template> {
+    let (pt, pf, pfac) = (p_top(true), p_top(false), p_factory());
+    vec![
+        tpl("createtx(e1)>Pt", eoa(1), &["Pt"], |n| tx(eoa(1), n, None, 0, kit::vault_init().into())),
+        tpl("createtx(e2)>Pf", eoa(2), &["Pf"], |n| tx(eoa(2), n, None, 3, kit::vault_init().into())),
+        tpl("factory.create(e3)>Pfac", eoa(3), &["Pfac"], |n| tx(eoa(3), n, Some(contract(F2)), 0, Default::default())),
+        tpl("probe(Pt)(e0)", eoa(0), &["Pt"], move |n| call(eoa(0), n, contract(3), &[word_addr(pt)])),
+        tpl("Pt.set(3,9)(e3)", eoa(3), &["Pt"], move |n| call(eoa(3), n, pt, &[word(3), word(9)])),
+        tpl("probeslot(Pt,1)(e2)", eoa(2), &["Pt"], move |n| call(eoa(2), n, contract(8), &[word_addr(pt), word(1)])),
+        tpl("probe(Pf)(e0)", eoa(0), &["Pf"], move |n| call(eoa(0), n, contract(3), &[word_addr(pf)])),
+        tpl("Pf.set(3,9)(e1)", eoa(1), &["Pf"], move |n| call(eoa(1), n, pf, &[word(3), word(9)])),
+        tpl("probe(Pfac)(e0)", eoa(0), &["Pfac"], move |n| call(eoa(0), n, contract(3), &[word_addr(pfac)])),
+        tpl("Pfac.set(3,9)(e1)", eoa(1), &["Pfac"], move |n| call(eoa(1), n, pfac, &[word(3), word(9)])),
+        tpl("Pfac.destroy(e2)", eoa(2), &["Pfac"], move |n| tx(eoa(2), n, Some(pfac), 0, Default::default())),
+    ]
+}
+
+fn deploy_jobs(tier: Tier, v: &mut Vec<Job>) {
+    let db = deploy_world();
+    let ts = deploy_templates();
+    let specs: &[SpecId] = match tier {
+        Tier::Quick => &[SpecId::FRONTIER, SpecId::TANGERINE, SpecId::SPURIOUS_DRAGON, SpecId::CANCUN],
+        Tier::Thorough => &[
+            SpecId::FRONTIER,
+            SpecId::HOMESTEAD,
+            SpecId::TANGERINE,
+            SpecId::SPURIOUS_DRAGON,
+            SpecId::BYZANTIUM,
+            SpecId::BERLIN,
+            SpecId::LONDON,
+            SpecId::CANCUN,
+            SpecId::PRAGUE,
+        ],
+    };
+    for seq in sequences(ts.len(), 3) {
+        // a deployment first, then only transactions about the same address
+        if seq.len() < 2 || seq[0] > 2 || !seq[1..].iter().all(|&t| t > 2 && ts[t].tags[0] == ts[seq[0]].tags[0]) {
+            continue;
+        }
+        if seq.len() == 3 && seq[1] == seq[2] {
+            continue;
+        }
+        for &spec in specs {
+            let Some(case) = build_case("c09d", spec, &db, &ts, &seq) else { continue };
+            let bound = match (tier, seq.len()) {
+                (Tier::Quick, 2) => 2,
+                (Tier::Quick, _) => 1,
+                (Tier::Thorough, 2) => 3,
+                (Tier::Thorough, _) => 2,
+            };
+            v.push(pipeline_job("c09-deploy", &case, &RunCfg::parallel(2), COARSE, bound, false));
+            if seq.len() == 2 {
+                v.push(pipeline_job("c09-deploy", &case, &RunCfg::sequential(), COARSE, 0, false));
+            }
+        }
+    }
+}
+
 pub fn jobs(tier: Tier) -> Vec<Job> {
     let db = world();
     let templates = templates();
     let mut v = Vec::new();
+    deploy_jobs(tier, &mut v);
     let specs: &[SpecId] = match tier {
         Tier::Quick => &[SpecId::CANCUN, SpecId::PRAGUE],
         Tier::Thorough => &[SpecId::SHANGHAI, SpecId::CANCUN, SpecId::PRAGUE, SpecId::OSAKA],
